@@ -114,8 +114,9 @@ def parse_one(data: bytes, lazy: bool, iv_size=None, expect_ok=False):
     """-> None | (class, text)"""
     from dashlive.mpeg import mp4
     from dashlive.utils.buffered_reader import BufferedReader
-    old = signal.signal(signal.SIGALRM, _alarm)
-    signal.setitimer(signal.ITIMER_REAL, BUDGET_S)
+    # the budget is CPU time of this process, so a loaded machine does not make a parse "unbounded"
+    old = signal.signal(signal.SIGPROF, _alarm)
+    signal.setitimer(signal.ITIMER_PROF, BUDGET_S)
     try:
         try:
             opts = mp4.Options(lazy_load=lazy, mode='rw')
@@ -133,8 +134,8 @@ def parse_one(data: bytes, lazy: bool, iv_size=None, expect_ok=False):
         except BaseException as e:      # SystemExit, KeyboardInterrupt, GeneratorExit ...
             return (f'non-Exception|{type(e).__name__}', str(e)[:100])
     finally:
-        signal.setitimer(signal.ITIMER_REAL, 0)
-        signal.signal(signal.SIGALRM, old)
+        signal.setitimer(signal.ITIMER_PROF, 0)
+        signal.signal(signal.SIGPROF, old)
     return None
 
 
@@ -259,16 +260,16 @@ def http_item(arg):
             from dashlive.server.requesthandler.media_management import InspectMediaFile
             with env.w.app.test_request_context('/media/inspect', method='POST', content_type='multipart/form-data',
                                                 data={'file': (io.BytesIO(body), 'mut_v1.mp4', 'video/mp4')}):
-                old = signal.signal(signal.SIGALRM, _alarm)
-                signal.setitimer(signal.ITIMER_REAL, 10.0)
+                old = signal.signal(signal.SIGPROF, _alarm)
+                signal.setitimer(signal.ITIMER_PROF, 10.0)
                 try:
                     import contextlib
                     with contextlib.redirect_stdout(io.StringIO()):
                         resp = InspectMediaFile().show_uploaded_file()
                     acc.outcome(('inspect', getattr(resp, 'status_code', 200)))
                 finally:
-                    signal.setitimer(signal.ITIMER_REAL, 0)
-                    signal.signal(signal.SIGALRM, old)
+                    signal.setitimer(signal.ITIMER_PROF, 0)
+                    signal.signal(signal.SIGPROF, old)
         except _Timeout:
             acc.violation('C16|mp4|http|inspect|UNBOUNDED', f'{name} {label}: inspect did not finish', rec)
         except Exception as e:
